@@ -191,6 +191,15 @@ def decode(v):
         if "$validate" in v:
             cls = getattr(STATE["mods"]["input_types"], v["$validate"])
             return cls.model_validate(v["value"])
+        if "$upload" in v:
+            # [filename, content type, content text, object id]: one Upload OBJECT per id within a call
+            import io
+
+            fn, ct, content, oid = v["$upload"]
+            cache = STATE.setdefault("uploads", {})
+            if oid not in cache:
+                cache[oid] = STATE["mods"]["base_model"].Upload(filename=fn, content=io.BytesIO(content.encode()), content_type=ct)
+            return cache[oid]
         if "$py" in v:
             return eval(v["$py"], {"pkg": pkg, "mods": STATE["mods"]})  # noqa: S307 (harness-authored)
         if "$dict" in v:
@@ -787,6 +796,35 @@ def _scalar_log(clear=True):
     return out
 
 
+def _decode_multipart(body: bytes, content_type: str, captured: dict) -> dict:
+    from requests_toolbelt.multipart.decoder import MultipartDecoder
+    import re as _re
+
+    parts = {}
+    for p in MultipartDecoder(body, content_type).parts:
+        cd = p.headers[b"Content-Disposition"].decode()
+        name = _re.search(r'name="([^"]*)"', cd).group(1)
+        fn = _re.search(r'filename="([^"]*)"', cd)
+        parts[name] = (fn.group(1) if fn else None, p.headers.get(b"Content-Type", b"").decode() or None, p.content)
+    ops = json.loads(parts["operations"][2])
+    fmap = json.loads(parts["map"][2])
+    captured["multipart"] = {"files": sorted(k for k in parts if k not in ("operations", "map")), "map": fmap}
+    for key, paths in fmap.items():
+        fn, ct, content = parts[key]
+        for path in paths:
+            cur = ops
+            segs = path.split(".")
+            for sg in segs[:-1]:
+                cur = cur[int(sg)] if isinstance(cur, list) else cur[sg]
+            last = segs[-1]
+            val = {"$file": [fn, ct, content.decode("utf-8", "replace")]}
+            if isinstance(cur, list):
+                cur[int(last)] = val
+            else:
+                cur[last] = val
+    return ops
+
+
 def cmd_call_args(req):
     """Call a generated method; capture the request; coerce the SENT variables with graphql-core and execute the
     SENT document with recording resolvers; do the same with the caller's INTENDED variables (GraphQL JSON form,
@@ -816,10 +854,16 @@ def cmd_call_args(req):
         body = request.content
         captured["content_type"] = request.headers.get("content-type")
         try:
-            payload = json.loads(body)
+            if (captured["content_type"] or "").startswith("multipart/form-data"):
+                # GraphQL multipart request: decode it as a server would - operations, map, one part per file - and put
+                # every file back at the variable paths the map names
+                payload = _decode_multipart(body, captured["content_type"], captured)
+            else:
+                payload = json.loads(body)
             captured.update(query=payload.get("query"), operationName=payload.get("operationName"),
                             variables=payload.get("variables"), has_variables="variables" in payload)
-        except Exception:
+        except Exception as exc:  # noqa
+            captured["decode_exc"] = f"{type(exc).__name__}: {exc}"
             captured["raw"] = body[:2000].decode("latin-1")
         if req.get("respond") == "execute" and captured.get("query") is not None:
             # answer with a conformant response (the sent document executed by graphql-core), so that the part of the
@@ -830,6 +874,7 @@ def cmd_call_args(req):
         return httpx.Response(200, json=req.get("response_body") or {"data": None, "errors": [{"message": "stop"}]})
 
     out = {"request": captured, "exc": None}
+    STATE["uploads"] = {}
     try:
         args = {k: decode(v) for k, v in (req.get("args") or {}).items()}
     except BaseException as exc:  # noqa
